@@ -241,14 +241,21 @@ func TestC19HangingHook(t *testing.T) {
 	if st, body, err := a.api("/api/set-admin", map[string]any{"session": ar.Session, "username": "alice", "admin": true}, nil); err != nil || st != 200 {
 		t.Fatalf("VIOLATION C19: change with a hanging hook configured failed: %d %s %v", st, body, err)
 	}
+	firstPid := ""
 	running := func() bool {
-		ents, _ := os.ReadDir("/proc")
-		for _, e := range ents {
-			if cl, err := os.ReadFile("/proc/" + e.Name() + "/cmdline"); err == nil && strings.Contains(string(cl), "sleep\x00"+marker) {
-				return true
+		if firstPid == "" {
+			// the first hook process ("echo $$" then exec sleep keeps the pid)
+			if data, err := os.ReadFile(started); err == nil {
+				if f := strings.Fields(string(data)); len(f) > 0 {
+					firstPid = f[0]
+				}
+			}
+			if firstPid == "" {
+				return false
 			}
 		}
-		return false
+		cl, err := os.ReadFile("/proc/" + firstPid + "/cmdline")
+		return err == nil && strings.Contains(string(cl), marker)
 	}
 	deadline := time.Now().Add(5 * time.Second)
 	for !running() && time.Now().Before(deadline) {
